@@ -29,6 +29,7 @@ type c02Env struct {
 	ch           c02Chain
 	gQ, gP       []uint64
 	Qs, Ps       string
+	ci           bool // conjugate-invariant rings (NthRoot = 4N): ops "divci", "moddownnttci"
 }
 
 func c02NewEnv(N int, ringQ, ringP *ring.Ring, ch c02Chain) *c02Env {
@@ -41,9 +42,13 @@ func c02NewEnv(N int, ringQ, ringP *ring.Ring, ch c02Chain) *c02Env {
 
 // fresh rings (and nothing else shared with the long-lived objects)
 func (e *c02Env) freshRings() (rq, rp *ring.Ring) {
-	rq, _ = ring.NewRing(e.N, e.ch.Q)
+	mk := ring.NewRing
+	if e.ci {
+		mk = ring.NewRingConjugateInvariant
+	}
+	rq, _ = mk(e.N, e.ch.Q)
 	if e.ringP != nil {
-		rp, _ = ring.NewRing(e.N, e.ch.P)
+		rp, _ = mk(e.N, e.ch.P)
 	}
 	return
 }
@@ -147,7 +152,11 @@ func c02OneModDown(c *Ctx, po bool, e *c02Env, be *ring.BasisExtender, kind stri
 		e.ringQ.AtLevel(levelQ).NTT(p1Q, p1Q)
 		e.ringP.AtLevel(levelP).NTT(p1P, p1P)
 		inQ, inP = c02RowsCopy(p1Q, levelQ+1), c02RowsCopy(p1P, levelP+1)
-		line = fmt.Sprintf("moddownntt %d %s %s %s %s %d %d %s %s", e.N, e.Qs, Vec(e.gQ), e.Ps, Vec(e.gP), levelQ, levelP, Mat(inQ), Mat(inP))
+		op := "moddownntt"
+		if e.ci {
+			op = "moddownnttci"
+		}
+		line = fmt.Sprintf(op+" %d %s %s %s %s %d %d %s %s", e.N, e.Qs, Vec(e.gQ), e.Ps, Vec(e.gP), levelQ, levelP, Mat(inQ), Mat(inP))
 	} else {
 		line = fmt.Sprintf("moddown %s %s %s %d %d %s %s", kind, e.Qs, e.Ps, levelQ, levelP, Mat(inQ), Mat(inP))
 	}
@@ -291,7 +300,11 @@ func c02OneDiv(c *Ctx, po bool, e *c02Env, rl *ring.Ring, kind string, level, nb
 	in := c02RowsCopy(p0, level+1)
 	buff := c02JunkPoly(r, e.N, level)
 	p1 := c02JunkPoly(r, e.N, outLevel)
-	line := fmt.Sprintf("div %s %d %s %s %d %d %s", kind, e.N, e.Qs, Vec(e.gQ), level, nb, Mat(in))
+	op := "div"
+	if e.ci {
+		op = "divci"
+	}
+	line := fmt.Sprintf(op+" %s %d %s %s %d %d %s", kind, e.N, e.Qs, Vec(e.gQ), level, nb, Mat(in))
 	pan := c02Panics(func() { c02CallDiv(kind, rl, nb, p0, buff, p1) })
 	out := c02RowsCopy(p1, outLevel+1)
 	c.Count("div:" + kind)
@@ -431,4 +444,67 @@ func c02History(c *Ctx, po bool, e *c02Env) {
 			}
 		}
 	}
+}
+
+// ---- conjugate-invariant rings (and the smallest ring degree) -----------------------------------------
+
+// c02CI: the NTT-domain divisions and ModDownQPtoQNTT on NewRingConjugateInvariant rings (NthRoot = 4N), whose
+// INTTLazy is lazy ([1, 2q)) for EVERY N.  Ties (ops divci, moddownnttci) + the same reference probes.
+func c02CI(c *Ctx, po bool, ch c02Chain, N int) {
+	ringQ, err := ring.NewRingConjugateInvariant(N, ch.Q)
+	if err != nil {
+		c.Count("ci-ring-error")
+		return
+	}
+	var ringP *ring.Ring
+	if len(ch.P) > 0 {
+		if ringP, err = ring.NewRingConjugateInvariant(N, ch.P); err != nil {
+			c.Count("ci-ring-error")
+			return
+		}
+	}
+	e := c02NewEnv(N, ringQ, ringP, ch)
+	e.ci = true
+	c.Count(fmt.Sprintf("ci-chain:N=%d", N))
+	views := map[int]*ring.Ring{}
+	for _, level := range c02Levels(len(ch.Q)) {
+		if level == 0 {
+			continue
+		}
+		views[level] = ringQ.AtLevel(level)
+		M := c02ProdBig(ch.Q[:level+1])
+		D := c02BigU(ch.Q[level])
+		for _, kind := range []string{"floorntt", "roundntt", "floormanyntt", "roundmanyntt"} {
+			nbs := []int{1}
+			if strings.Contains(kind, "many") {
+				nbs = []int{0, 1, level}
+			}
+			for _, nb := range nbs {
+				for _, X := range c02DivInputs(c, N, M, D) {
+					c02OneDiv(c, po, e, views[level], kind, level, nb, X, fmt.Sprintf("ci N=%d", N))
+				}
+			}
+		}
+	}
+	if ringP != nil {
+		be := ring.NewBasisExtender(ringQ, ringP)
+		for _, levelQ := range c02Levels(len(ch.Q)) {
+			levelP := c.rng.Intn(len(ch.P))
+			MQP := new(big.Int).Mul(c02ProdBig(ch.Q[:levelQ+1]), c02ProdBig(ch.P[:levelP+1]))
+			c02OneModDown(c, po, e, be, "qptoqntt", levelQ, levelP, c02FamValues(c, N, MQP, c02ProdBig(ch.P[:levelP+1])), fmt.Sprintf("ci N=%d", N))
+			c02OneModDown(c, po, e, be, "qptoqntt", levelQ, levelP, c02ConstValues(N, new(big.Int)), fmt.Sprintf("ci0 N=%d", N))
+		}
+	}
+}
+
+// c02DivInputs: the boundary families, the ZERO polynomial and multiples of the divisor (last residue 0).
+func c02DivInputs(c *Ctx, N int, M, D *big.Int) [][]*big.Int {
+	mult := make([]*big.Int, N)
+	K := new(big.Int).Div(M, D)
+	for j := range mult {
+		mult[j] = new(big.Int).Mul(c02RandBelow(c.rng, K), D)
+	}
+	c.Count("coef:zero-polynomial")
+	c.Count("coef:multiples-of-divisor")
+	return [][]*big.Int{c02FamValues(c, N, M, D), c02ConstValues(N, new(big.Int)), mult}
 }
